@@ -78,7 +78,14 @@ func NewMultiDB(kinds []string, lists []string) (*MultiDB, error) {
 // NewMultiDBNamed: with sameName every database gets the same name (they still differ by type or write
 // list, hence by manifest and address).
 func NewMultiDBNamed(kinds []string, lists []string, sameName bool) (*MultiDB, error) {
+	return NewMultiDBOpts(kinds, lists, sameName, false)
+}
+
+// NewMultiDBOpts: with sharedOpts the databases are created by the remote peer and the instance under test
+// opens all of them with ONE options value (an application that keeps a single options struct).
+func NewMultiDBOpts(kinds []string, lists []string, sameName, sharedOpts bool) (*MultiDB, error) {
 	w := &MultiDB{net: sim.NewNet(), events: map[string]int{}}
+	shared := &orbitdb.CreateDBOptions{Replicate: boolp(true)}
 	var err error
 	if w.P, err = w.net.AddPeer("P").Start(nil); err != nil {
 		return nil, err
@@ -98,13 +105,21 @@ func NewMultiDBNamed(kinds []string, lists []string, sameName bool) (*MultiDB, e
 		if sameName {
 			name = "shared-name"
 		}
-		sp, err := w.P.DB.Create(bg, name, k, &orbitdb.CreateDBOptions{AccessController: ac, Replicate: boolp(true)})
-		if err != nil {
-			return nil, err
-		}
-		sr, err := w.R.DB.Open(bg, sp.Address().String(), &orbitdb.CreateDBOptions{Replicate: boolp(true)})
-		if err != nil {
-			return nil, err
+		var sp, sr iface.Store
+		if sharedOpts {
+			if sr, err = w.R.DB.Create(bg, name, k, &orbitdb.CreateDBOptions{AccessController: ac, Replicate: boolp(true)}); err != nil {
+				return nil, err
+			}
+			if sp, err = w.P.DB.Open(bg, sr.Address().String(), shared); err != nil {
+				return nil, err
+			}
+		} else {
+			if sp, err = w.P.DB.Create(bg, name, k, &orbitdb.CreateDBOptions{AccessController: ac, Replicate: boolp(true)}); err != nil {
+				return nil, err
+			}
+			if sr, err = w.R.DB.Open(bg, sp.Address().String(), &orbitdb.CreateDBOptions{Replicate: boolp(true)}); err != nil {
+				return nil, err
+			}
 		}
 		w.dbs = append(w.dbs, &mdb{kind: k, addr: sp.Address().String(), sp: sp, sr: sr})
 	}
@@ -425,6 +440,7 @@ func (w *MultiDB) Close() {
 }
 
 type C09Arg struct {
+	SharedOpts bool
 	SameName bool
 	Gated    bool
 	Kinds    []string
@@ -442,13 +458,16 @@ func (a C09Arg) Name() string {
 	if a.SameName {
 		g += "/same-name"
 	}
+	if a.SharedOpts {
+		g += "/shared-options"
+	}
 	return fmt.Sprintf("multidb/%s/%s/d%d%s/shard%d.%d", strings.Join(a.Kinds, "+"), strings.Join(a.Lists, "+"), a.Depth, g, a.Shard, a.Shards)
 }
 
 func init() {
 	explore.Register(&explore.CheckDef{
 		ID: "C09", Level: "model_checking",
-		Rule: "one instance with its shared event bus holds 2-3 databases (type mixes, write lists {both peers, wildcard}); a remote instance holds replicas; explicit-state DFS over write(db), load(db), remote write(db) (announced on that database's topic), head exchange for db over the direct channel and delivery of any in-flight message, up to the depth bound; also with databases that share one name but differ in type or write list. After every action: every database not named by the action keeps its entry set, heads, view, cached heads, replication status and emitted-event counts; every topic/direct message sent by the instance carries its own address and only heads of that log; every write/replicated event carries only entries of its own address. Non-trivial = states in which at least two databases hold entries.",
+		Rule: "one instance with its shared event bus holds 2-3 databases (type mixes, write lists {both peers, wildcard}); a remote instance holds replicas; explicit-state DFS over write(db), load(db), remote write(db) (announced on that database's topic), head exchange for db over the direct channel and delivery of any in-flight message, up to the depth bound; also with databases that share one name but differ in type or write list, and with databases opened through one shared options value. After every action: every database not named by the action keeps its entry set, heads, view, cached heads, replication status and emitted-event counts; every topic/direct message sent by the instance carries its own address and only heads of that log; every write/replicated event carries only entries of its own address. Non-trivial = states in which at least two databases hold entries.",
 		Units: func(tier string) []explore.Unit {
 			cfgs := []C09Arg{
 				{Kinds: []string{"eventlog", "eventlog"}, Lists: []string{"both", "both"}, Depth: 4},
@@ -470,6 +489,7 @@ func init() {
 			}
 			cfgs = append(cfgs, C09Arg{SameName: true, Kinds: []string{"eventlog", "keyvalue"}, Lists: []string{"both", "both"}, Depth: gd - 3})
 			cfgs = append(cfgs, C09Arg{SameName: true, Kinds: []string{"eventlog", "eventlog"}, Lists: []string{"both", "*"}, Depth: gd - 3})
+			cfgs = append(cfgs, C09Arg{SharedOpts: true, Kinds: []string{"eventlog", "keyvalue"}, Lists: []string{"both", "*"}, Depth: gd - 3})
 			cfgs = append(cfgs, C09Arg{Gated: true, Kinds: []string{"eventlog", "eventlog"}, Lists: []string{"both", "both"}, Depth: gd})
 			cfgs = append(cfgs, C09Arg{Gated: true, Kinds: []string{"keyvalue", "eventlog"}, Lists: []string{"both", "*"}, Depth: gd})
 			var u []explore.Unit
@@ -496,9 +516,9 @@ func init() {
 				return
 			}
 			d := &explore.DFS{
-				Scenario: a.Name(), Space: fmt.Sprintf("multidb/%s/%s/gated=%v/same=%v", strings.Join(a.Kinds, "+"), strings.Join(a.Lists, "+"), a.Gated, a.SameName),
+				Scenario: a.Name(), Space: fmt.Sprintf("multidb/%s/%s/gated=%v/same=%v/shared=%v", strings.Join(a.Kinds, "+"), strings.Join(a.Lists, "+"), a.Gated, a.SameName, a.SharedOpts),
 				New: func() (explore.World, error) {
-					w, err := NewMultiDBNamed(a.Kinds, a.Lists, a.SameName)
+					w, err := NewMultiDBOpts(a.Kinds, a.Lists, a.SameName, a.SharedOpts)
 					if err == nil && a.Gated {
 						w.gated = true
 						w.net.Gates.Enable(func(kind, peer, key, caller string) bool {
